@@ -30,3 +30,45 @@ package util
 //@   props C08
 //@   trusted
 //@   pure
+
+// ---------------------------------------------------------------------------------------------
+// File helpers (C07, C12): an existing file is opened for appending and never truncated.
+
+//@ ghost obs.exists_calls int
+//@ ghost obs.exists bool
+//@ ghost obs.exists_path string
+//@ fn FileExists(file) (r)
+//@   props C07 C12 C18
+//@   modifies ghost obs.exists_calls, ghost obs.exists, ghost obs.exists_path, ghost obs.stat_err, ghost obs.stat_path
+//@   ensures [C07 exists_means_stat_did_not_say_missing] obs.stat_path == file && (r <==> !is_not_exist(obs.stat_err))
+//@   records obs.exists_calls = old(obs.exists_calls) + 1
+//@   records obs.exists = r
+//@   records obs.exists_path = file
+
+//@ fn openFile(file) (f, err)
+//@   props C07 C12
+//@   modifies heap(alloc), ghost fs.seq, ghost fs.appends, ghost fs.last_append_opened, ghost eff.fs
+//@   ensures [C07 opened_for_append] fs.appends == old(fs.appends) + 1 && fs.last_append_opened == file && fs.seq == old(fs.seq) + 1
+//@   ensures err == nil ==> f != nil
+
+//@ fn createFile(file) (f, err)
+//@   props C07 C12
+//@   modifies heap(alloc), ghost fs.seq, ghost fs.creates, ghost fs.last_created, ghost eff.fs
+//@   ensures fs.creates == old(fs.creates) + 1 && fs.last_created == file && fs.seq == old(fs.seq) + 1
+//@   ensures err == nil ==> f != nil
+
+//@ fn OpenOrCreateFile(file) (f, err)
+//@   props C07 C12
+//@   modifies heap(alloc), ghost fs.seq, ghost fs.appends, ghost fs.last_append_opened, ghost fs.creates, ghost fs.last_created, ghost eff.fs,
+//@            ghost obs.exists_calls, ghost obs.exists, ghost obs.exists_path, ghost obs.stat_err, ghost obs.stat_path
+//@   ensures [C07 existence_is_tested_first] obs.exists_calls == old(obs.exists_calls) + 1 && obs.exists_path == file
+//@   ensures [C07 existing_file_is_appended_to_never_truncated] obs.exists ==>
+//@        (fs.creates == old(fs.creates) && fs.appends == old(fs.appends) + 1 && fs.last_append_opened == file)
+//@   ensures [C07 missing_file_is_created] !obs.exists ==> (fs.creates == old(fs.creates) + 1 && fs.last_created == file && fs.appends == old(fs.appends))
+//@   ensures err == nil ==> f != nil
+
+//@ ufunc trunc_string(s string, n int) string
+//@ fn TruncString(val, max) (r)
+//@   props C06
+//@   requires max >= 0
+//@   ensures [C06 truncation] r == ite(len(val) > max, substr(val, 0, max), val)
